@@ -715,6 +715,90 @@ fn leak_max(k: &str) -> &'static str {
     }
 }
 
+// ------------------------------------------------------------------ the two time boundaries, to the millisecond
+
+/// X falls silent; A finds it dead at an evaluation at t0. Evaluations and handshakes are then
+/// placed exactly on and around t0 + grace/2 and t0 + grace.
+pub fn grace_boundaries() -> Part {
+    let mut part = Part::new("membership/grace-boundaries");
+    part.rule = "two real nodes A and X (dead-node grace 20 s); X falls silent and A finds it dead at an evaluation at t0; then, for every offset d in {grace/2 - 1 ms, grace/2, grace/2 + 1 ms}: at t0 + d A's SYN digest and SYN-ACK reply must still list X up to and including grace/2 and must no longer list it after; for every offset in {grace - 1 ms, grace, grace + 1 ms}: an evaluation at t0 + offset must keep X before the grace period is over and must have removed it at exactly the grace period and after".into();
+    let opts = NodeOpts { fd: fd_cfg(), ..Default::default() };
+    let setup = || -> (Node, Node) {
+        let mut a = Node::new(&Id::v4("A", 1, 10_001), &opts);
+        let mut x = Node::new(&Id::v4("X", 1, 10_003), &opts);
+        for _ in 0..4 {
+            for (f, t) in [(0, 1), (1, 0)] {
+                let (from, to) = if f == 0 { (&mut a, &mut x) } else { (&mut x, &mut a) };
+                let _ = t;
+                from.cc.verif_update_self_heartbeat();
+                let syn = from.cc.verif_create_syn_message();
+                if let Some(sa) = to.cc.verif_process_message(syn) {
+                    if let Some(ack) = from.cc.verif_process_message(sa) {
+                        to.cc.verif_process_message(ack);
+                    }
+                }
+            }
+            crate::clock::advance(Duration::from_secs(1));
+            a.cc.verif_update_nodes_liveness();
+        }
+        // X falls silent: 11 s later A finds it dead (t0)
+        crate::clock::advance(Duration::from_secs(11));
+        a.cc.verif_update_nodes_liveness();
+        (a, x)
+    };
+    let xid = real::to_real_id(&Id::v4("X", 1, 10_003));
+    let mut cases = 0u64;
+    // quarantine boundary
+    for (d, must_list) in [(GRACE_MS / 2 - 1, true), (GRACE_MS / 2, true), (GRACE_MS / 2 + 1, false)] {
+        cases += 1;
+        let (mut a, _x) = setup();
+        if !a.cc.dead_nodes().any(|n| *n == xid) {
+            part.notes.push("MACHINERY: X was not found dead at t0".into());
+            continue;
+        }
+        crate::clock::advance(Duration::from_millis(d));
+        let syn = a.cc.verif_create_syn_message();
+        let listed_syn = real::meaning_of_real(&syn).digest().iter().any(|e| e.id.node_id == "X");
+        let probe = real::build_real(&crate::codec::Msg::Syn { digest: vec![], cluster_id: "c".into() });
+        let listed_reply = match probe.ok().and_then(|m| a.cc.verif_process_message(m)) {
+            Some(r) => {
+                let mean = real::meaning_of_real(&r);
+                mean.digest().iter().any(|e| e.id.node_id == "X") || mean.members().iter().any(|m| m.id.node_id == "X")
+            }
+            None => false,
+        };
+        part.tally.inc("boundary_probes");
+        if must_list && !listed_syn {
+            part.violation("C12", format!("X dead for {d} ms (<= grace/2 = {} ms) is already left out of A's SYN digest", GRACE_MS / 2), "quarantined-too-early".into(), json!({"root":"boundaries","offset_ms":d}));
+        }
+        if !must_list && (listed_syn || listed_reply) {
+            part.violation("C12", format!("X dead for {d} ms (> grace/2 = {} ms) is still mentioned by A (syn digest: {listed_syn}, reply: {listed_reply})", GRACE_MS / 2), "mentioned-after-half-grace".into(), json!({"root":"boundaries","offset_ms":d}));
+        }
+    }
+    // removal boundary
+    for (d, must_be_gone) in [(GRACE_MS - 1, false), (GRACE_MS, true), (GRACE_MS + 1, true)] {
+        cases += 1;
+        let (mut a, _x) = setup();
+        crate::clock::advance(Duration::from_millis(d));
+        a.cc.verif_update_nodes_liveness();
+        let present = a.cc.node_state(&xid).is_some();
+        part.tally.inc("boundary_probes");
+        if must_be_gone && present {
+            part.violation("C12", format!("X dead at every evaluation for {d} ms (grace period {GRACE_MS} ms) is still present after the evaluation"), "not-removed-after-grace".into(), json!({"root":"boundaries","offset_ms":d}));
+        }
+        if !must_be_gone && !present {
+            part.violation("C12", format!("X dead for {d} ms only (grace period {GRACE_MS} ms) was already removed"), "removed-too-early".into(), json!({"root":"boundaries","offset_ms":d}));
+        }
+    }
+    part.states = cases;
+    part.transitions = cases;
+    part.executions = cases;
+    part.distinct_nontrivial = cases;
+    part.sample(json!({"offset_ms": GRACE_MS}));
+    part.require("boundary_probes");
+    part
+}
+
 // ------------------------------------------------------------------ a member restarted under a new generation
 
 /// A crashed and came back with the same node id and address and a higher generation; B still
@@ -939,6 +1023,7 @@ pub fn run(property: &'static str, tier: Tier, started: Instant) -> Vec<Part> {
     if property == "C12" {
         parts.push(lru_walk());
         parts.push(restart_part(tier));
+        parts.push(grace_boundaries());
     }
     if property == "C13" {
         // the same oracle when nobody keeps a receiver between evaluations (the value is read on demand)
@@ -951,6 +1036,13 @@ pub fn run(property: &'static str, tier: Tier, started: Instant) -> Vec<Part> {
 }
 
 pub fn replay(v: &Value) -> Result<(), String> {
+    if v["root"].as_str() == Some("boundaries") {
+        let p = grace_boundaries();
+        return match p.violations.first() {
+            Some(x) => Err(x.what.clone()),
+            None => Ok(()),
+        };
+    }
     if v["root"].as_str() == Some("restart") {
         let p = restart_part(Tier::Quick);
         return match p.violations.first() {
